@@ -320,6 +320,8 @@ def step_event(arm, eid, base, pre_state, act):
     post = project(arm)
     ev = {'id': eid, 'pre': diff(base, pre), 'act': act, 'out': out, 'cls': cls, 'nunp': nunp,
           'd': post_delta(pre, post)}
+    if act['n'] == 'Step' and not out.startswith('hosterror') and getattr(arm, 'opcode_len', None) in (16, 32):
+        ev['ilen'] = arm.opcode_len
     if arm._last_tb:
         ev['tb'] = arm._last_tb
     if getattr(arm, '_res', None) is not None:
